@@ -19,7 +19,7 @@ ANCHORS = ["decaylanguage.dec.dec:DecFileParser.build_decay_chains", "decaylangu
            "decaylanguage.dec.dec:DecFileParser._decay_mode_details"]
 WORKERS = {"quick": 4, "thorough": 16}
 WTESTS = {"groups": ['parser_chains'], "tests": ['tests/dec', 'tests/decay']}
-REQUIRED = {"depth>=3": 50, "repeated-daughter-in-line": 50, "empty-block-daughter": 20, "S-cuts-at-depth>=2": 50, "lines>=4": 50, "not-found-raises": 20,
+REQUIRED = {"mother-made-by-CDecay-or-CopyDecay-used-as-daughter": 20, "depth>=3": 50, "repeated-daughter-in-line": 50, "empty-block-daughter": 20, "S-cuts-at-depth>=2": 50, "lines>=4": 50, "not-found-raises": 20,
             "S-contains-direct-daughters": 50, "S-as-set": 20, "S-as-tuple": 20, "S-all-subsets": 10, "daughters>=3": 50, "alias-mother": 10,
             "corpus-mother": 20, "photos-line-in-chain": 20, "conjugated-table-in-set": 10, "S-contains-the-mother": 20, "zero-branching-fraction-line-with-decaying-daughter": 5, "earlier-instance-queried-again": 20, "reparsed-without-conjugates": 5, "C09.build_decay_chains.is_unfolding": 300}
 ASSUMPTIONS = ["table sets are acyclic (as quantified)", "the chain reports the model without the PHOTOS keyword; an absent parameter list '' == []"]
@@ -102,8 +102,27 @@ def gen_tables(ctx, max_paths=3000, max_size=1500, same_names_as=None):
             c = names_conj(m)
             if r.random() < 0.3 and not c.startswith("ChargeConj(") and c != m and c not in parts and c not in stable:
                 cds.append({"k": "CDecay", "name": c})
+        # ... and so are copied tables; mothers made by CDecay / CopyDecay are used as daughters further up, where they must be unfolded like any other
+        by_m = {b["m"]: b for b in blocks}
+        derived_used = False
+        for j, m in enumerate(parts):
+            if j == 0:
+                continue
+            made = [cd["name"] for cd in cds if cd["k"] == "CDecay" and cd["name"] == names_conj(m)]
+            if r.random() < 0.25:
+                cp = "Cp" + m.replace("anti-", "a")
+                if L.label_ok(cp, g.models) and cp not in parts and cp not in stable:
+                    cds.append({"k": "CopyDecay", "a": cp, "b": m})
+                    made.append(cp)
+            for name in made:
+                for up in parts[:j]:
+                    for ln in by_m[up]["lines"]:
+                        if r.random() < 0.12:
+                            ln["fs"].insert(r.randint(0, len(ln["fs"])), name)
+                            derived_used = True
         stmts = decgen.interleave(r, stmts, blocks, cds)
         exp = L.expected(stmts)
+        exp["derived_table_used_as_daughter"] = derived_used
         alltabs = {**exp["tables"], **exp["derived"]}
         T = {m: [{"bf": ln["bf"], "fs": ln["fs"], "model": ln["model"], "model_params": ln["params"]} for ln in lines] for m, lines in alltabs.items()}
         memo = {}
@@ -233,7 +252,9 @@ def run_text(ctx, stmts, T, parts, exp, workload="gen"):
             p0, T0, m0, wit0 = _prev[0]
             ctx.hit("earlier-instance-queried-again")
             check(ctx, p0, T0, m0, [], "list", wit0, "earlier-instance")
-    if derived and ctx.rng.random() < 0.6:
+    exp_off = L.expected(stmts, include_cc=False)
+    conj_made = [m for m in derived if m not in exp_off["derived"]]      # tables made by CDecay (copies exist whatever the switch says)
+    if conj_made and ctx.rng.random() < 0.6:
         # the same instance parsed again without / with conjugated tables: chains follow the tables of the *last* parse
         import warnings  # noqa: PLC0415
 
@@ -241,16 +262,16 @@ def run_text(ctx, stmts, T, parts, exp, workload="gen"):
             warnings.simplefilter("ignore")
             p.parse(include_ccdecays=False)
         ctx.hit("reparsed-without-conjugates")
-        T_off = {m: T[m] for m in exp["tables"]}
+        T_off = {m: T[m] for m in [*exp_off["tables"], *exp_off["derived"]]}
         w2 = {**wit, "reparsed": "include_ccdecays=False"}
-        users = [m for m in parts if any(d in derived for ln in T[m] for d in ln["fs"])]
+        users = [m for m in parts if any(d in conj_made for ln in T[m] for d in ln["fs"])]
         for m in (users[:1] or parts[:1]):
             check(ctx, p, T_off, m, [], "list", w2, workload + "-reparsed")
-        check_notfound(ctx, p, derived[0], w2)
+        check_notfound(ctx, p, conj_made[0], w2)
         with warnings.catch_warnings():
             warnings.simplefilter("ignore")
             p.parse()
-        check(ctx, p, T, derived[0], [], "list", {**wit, "reparsed": "off then on"}, workload + "-reparsed")
+        check(ctx, p, T, conj_made[0], [], "list", {**wit, "reparsed": "off then on"}, workload + "-reparsed")
     _prev.clear()
     _prev.append((p, T, parts[0], wit))
     stable_only = [d for lines in T.values() for ln in lines for d in ln["fs"] if d not in T]
@@ -290,6 +311,8 @@ def run(ctx):
     contracts.arm("parser_chains")
     for _ in range(ctx.pick(120, 800)):
         stmts, T, parts, exp = gen_tables(ctx)
+        if exp.get("derived_table_used_as_daughter"):
+            ctx.hit("mother-made-by-CDecay-or-CopyDecay-used-as-daughter")
         run_text(ctx, stmts, T, parts, exp)
         if len(ctx.violations) >= ctx.max_violations:
             return
